@@ -1180,7 +1180,7 @@ class Interp:
                 # CPython: a repetition count that does not fit an index raises OverflowError, a huge result MemoryError
                 self.guard(mk_bool(zi(n) < 2 ** 63), "OverflowError", node, "cannot fit 'int' into an index-sized integer")
                 if self.path.choose(2) == 1:
-                    self.path.assume(zi(n) > 1)
+                    self.path.assume(zi(n) > 2 ** 20)     # only a huge result can exhaust memory
                     self.throw("MemoryError", "", node)
                 f = z3.Function("str_repeat", z3.StringSort(), z3.IntSort(), z3.StringSort())
                 r = f(zs(s), zi(n))
@@ -1192,7 +1192,7 @@ class Interp:
                     return PList(list(a.items) * b)
                 self.guard(mk_bool(zi(b) < 2 ** 63), "OverflowError", node, "cannot fit 'int' into an index-sized integer")
                 if self.path.choose(2) == 1:
-                    self.path.assume(zi(b) > 1)
+                    self.path.assume(zi(b) > 2 ** 20)     # only a huge result can exhaust memory
                     self.throw("MemoryError", "", node)
                 if not a.is_sym() and len(a.items) == 0:
                     return PList([])
